@@ -17,6 +17,7 @@ git -C $EV_VERIF checkout -q -- . && git -C $EV_VERIF checkout -q --detach $(git
 sed -i "s|/repo/crates|$EV_REPO/crates|g" $EV_VERIF/harness/Cargo.toml
 for P in "$@"; do
   echo "=== $P with $(basename $(dirname $PATCH))"
-  ( cd $EV_VERIF && VERIF_REPO=$EV_REPO timeout 3600 ./check $P --tier quick 2>&1 | grep -E "VIOLATION|KNOWN-FINDING|violation:|rc=[1-9]|disagree" | cut -c1-300; echo "exit=$?" )
+  ( cd $EV_VERIF && VERIF_REPO=$EV_REPO timeout 3600 ./check $P --tier ${SEEDEVAL_TIER:-quick} > /tmp/ev_last_$P.log 2>&1; echo "check exit=$?";
+    grep -E "VIOLATION|KNOWN-FINDING|violation:|rc=[1-9]|disagree" /tmp/ev_last_$P.log | cut -c1-300 | head -40 )
 done
 git -C $EV_REPO checkout -q -- .
